@@ -144,7 +144,8 @@ def run(ctx):
     ctx.count("verdicts", "rejected", sum(1 for v in verdicts if v == "0"))
 
     # ---- end to end: writestr / writef gate, archive unchanged by a rejected call
-    sample = rng.sample(names, 400 if ctx.thorough else 120)
+    # (names with a backslash are outside the quantifier: the reader rewrites '\\' to '/', so the listing is not the stored name)
+    sample = rng.sample([n for n in names if "\\" not in n], 400 if ctx.thorough else 120)
     for i in range(0, len(sample), 8):
         chunk = sample[i:i + 8]
         buf = io.BytesIO()
